@@ -365,5 +365,126 @@ def _unwrap(x):
     return x
 
 
+# ---- get_initial_composition (twins of spec.gic_rejects / spec.gic_ok)
+
+
+def _gic_cells(real_wells, component_names, initial_volumes):
+    wells = _unwrap(real_wells)
+    vols = _unwrap(initial_volumes)
+    return [(r, c, w, _f(vols[r][c]), component_names.get(w)) for r, row in enumerate(wells) for c, w in enumerate(row)]
+
+
+def gic_rejects(real_wells, component_names, initial_volumes):
+    cells = _gic_cells(real_wells, component_names, initial_volumes)
+    known = {w for (_, _, w, _, _) in cells}
+    if any(k not in known for k in component_names):
+        return True
+    return any(given is not None and v == 0 for (_, _, _, v, given) in cells)
+
+
+def gic_ok(result, name, real_wells, component_names, initial_volumes):
+    cells = _gic_cells(real_wells, component_names, initial_volumes)
+    wells = _unwrap(real_wells)
+    R, Cn = len(wells), len(wells[0])
+    res = {k: _unwrap(v) for k, v in result.items()}
+    for arr in res.values():
+        if len(arr) != R or any(len(row) != Cn for row in arr):
+            return False
+    used_keys = set()
+    for (r, c, w, v, given) in cells:
+        if given is not None:
+            acc = {given}
+        elif R > 1:
+            acc = {f"{name}.{w}"}
+        elif Cn == 1:
+            acc = {name}
+        else:  # single-row, multi-column plates: the property does not fix the default
+            acc = {name, f"{name}.{w}"}
+        fr = {k: _f(arr[r][c]) for k, arr in res.items()}
+        if v == 0:
+            if any(f != 0 for f in fr.values()):
+                return False
+            continue
+        ones = [k for k, f in fr.items() if f == 1]
+        if len(ones) != 1 or ones[0] not in acc or any(f != 0 for k, f in fr.items() if k != ones[0]):
+            return False
+        used_keys.add(ones[0])
+    return used_keys == set(res)
+
+
+# ---- EVO script commands (twins of spec.evo_cmd / evo_sel_spec / evo_wash_cmd and the C13 predicates)
+
+
+def _well_rc(w):
+    w = str(w)
+    return "ABCDEFGHIJKLMNOPQRSTUVWXYZ".index(w[0]), int(w[1:])
+
+
+def _flat_wells(wells):
+    import numpy as np
+
+    return [str(x) for x in np.array(_unwrap(wells), dtype=object).flatten("F").tolist()] if is_collection(wells) else [str(wells)]
+
+
+def evo_sel_spec(n_rows, n_columns, wells):
+    """selection string by the documented EVOware rule: 2 hex digits columns, 2 hex digits rows, then the column-major
+    bitmap in groups of 7 bits (least significant first), each group printed as chr(48 + value)"""
+    R, Cn = int(n_rows), int(n_columns)
+    sel = set(_well_rc(w) for w in _flat_wells(wells))
+    bits = [1 if (k % R, k // R + 1) in sel else 0 for k in range(R * Cn)]
+    out = f"{Cn:02X}{R:02X}"
+    for g in range(0, len(bits), 7):
+        out += chr(48 + sum(b << i for i, b in enumerate(bits[g:g + 7])))
+    return out
+
+
+def _fmt_round(v, dec):
+    import numpy as np
+
+    x = _f(v)
+    return str(np.round(x, dec)) if not isinstance(x, int) or isinstance(x, bool) else str(x)
+
+
+def evo_cmd(kind, wells, labware_position, volume, liquid_class, tips, arm, selstr):
+    tl = list(tips)
+    vols = list(volume) if is_collection(volume) else [volume] * len(tl)
+    slots = ["0"] * 8
+    for tp, v in zip(tl, vols):
+        t = tip_bit(tp).bit_length() - 1
+        slots[t] = '"' + _fmt_round(v, 2) + '"'
+    pos = list(labware_position)
+    return (f'B;{kind}({tipmask(tl)},"{liquid_class}",' + ",".join(slots) + f',0,0,0,0,{_f(pos[0])},{_f(pos[1]) - 1},1,"{selstr}",0,{_f(arm)});')
+
+
+def evo_wash_cmd(tips, waste_location, cleaner_location, arm, waste_vol, waste_delay, cleaner_vol, cleaner_delay, airgap, airgap_speed,
+                 retract_speed, fastwash, low_volume):
+    wl, cl = list(waste_location), list(cleaner_location)
+    return (f'B;Wash({tipmask(list(tips))},{_f(wl[0])},{_f(wl[1]) - 1},{_f(cl[0])},{_f(cl[1]) - 1},"{_fmt_round(waste_vol, 1)}",{_f(waste_delay)},'
+            f'"{_fmt_round(cleaner_vol, 1)}",{_f(cleaner_delay)},{_f(airgap)},{_f(airgap_speed)},{_f(retract_speed)},{_f(fastwash)},{_f(low_volume)},1000,{_f(arm)});')
+
+
+def well_in_grid(w, rows, cols):
+    r, c = _well_rc(w)
+    return 0 <= r < rows and 1 <= c <= cols
+
+
+def well_col(w):
+    return _well_rc(w)[1]
+
+
+def strictly_ascending(xs):
+    ks = [(_well_rc(x)[1], _well_rc(x)[0]) if isinstance(x, str) else tip_bit(x) for x in xs]
+    return all(a < b for a, b in zip(ks, ks[1:]))
+
+
+def tips_distinct(xs):
+    ks = [tip_bit(x) for x in xs]
+    return len(set(ks)) == len(ks)
+
+
+def is_arraylike(v):
+    return is_collection(v)
+
+
 NS = {k: v for k, v in globals().items() if callable(v) and not k.startswith("_") and k not in ("wrap", "Num", "CeilSet", "Fraction")}
 NS["max"] = _max
